@@ -747,6 +747,10 @@ class C12(Sim):
                  "pts1d", "det3shape", "lines_par"]
         if ks:
             kinds += ["point", "point", "binop", "padsize", "bwhich"]
+        # swarm: the degenerate calls into the Vec.normalized family are only issued in runs where that op kind is enabled
+        on = set(self.cfg["prim_ops"])
+        need = {"normzero": "normalized", "rotzero": "rotate_axis", "cotan_deg": "cotan", "fb_deg": "face_basis", "cc_deg": "circumcenter"}
+        kinds = [k for k in kinds if need.get(k, "") in on or k not in need]
         kind = r.choice(kinds)
         dims = self.dims_present(1)
         d3, d2 = self.ids_dim(3), self.ids_dim(2)
